@@ -372,25 +372,16 @@ func CompileList(list List) (f Object) {
 			} else if fi := CurrentPackage.funcs[name]; fi != nil {
 				f = fi.Create(list[1:])
 			} else {
-				lc := Lambda{
-					Doc: &FuncDoc{
+				// The function is not defined yet. It may be defined later
+				// by defun or by any other defining form so the function
+				// is looked up when the call is evaluated.
+				f = &Dynamic{
+					Function: Function{
 						Name: name,
-						Args: []*DocArg{},
+						Self: &forwardCaller{name: name, pkg: CurrentPackage},
+						Args: list[1:],
 					},
-					Forms: List{Undefined(name)},
 				}
-				CurrentPackage.lambdas[name] = &lc
-				fc := func(args List) Object {
-					return &Dynamic{
-						Function: Function{
-							Name: name,
-							Self: &lc,
-							Args: args,
-						},
-					}
-				}
-				CurrentPackage.funcs[name] = &FuncInfo{Create: fc, Pkg: CurrentPackage, Export: true}
-				f = fc(list[1:])
 			}
 			if funk, ok := f.(Funky); ok {
 				funk.CompileArgs()
@@ -415,6 +406,22 @@ func CompileList(list List) (f Object) {
 		}
 	}
 	return
+}
+
+// forwardCaller is the Caller of a call that was compiled before the function
+// it calls was defined.
+type forwardCaller struct {
+	name string
+	pkg  *Package
+}
+
+// Call the function of the name with already evaluated arguments.
+func (fc *forwardCaller) Call(s *Scope, args List, depth int) Object {
+	fi := FindFunc(fc.name, fc.pkg)
+	if fi == nil {
+		fi = MustFindFunc(fc.name)
+	}
+	return fi.Create(nil).(Funky).Caller().Call(s, args, depth)
 }
 
 // DescribeFunction returns the documentation for the function bound to the
